@@ -72,6 +72,7 @@ class CFG:
         self.exit = self._new('exit')
         self.raise_exit = self._new('raise')
         self._final_memo: Dict[Tuple, int] = {}
+        self.in_handler: Set[int] = set()  # nodes that belong to the body of an except clause
         body = func_node.body if isinstance(func_node.body, list) else [ast.Return(value=func_node.body)]
         k = _K(self.raise_exit.id, [])
         outs = self._seq(body, [(self.entry.id, 'next')], k)
@@ -266,7 +267,9 @@ class CFG:
             for h in st.handlers:
                 hn = self._new('handler', h, src(h.type) if h.type is not None else 'bare')
                 self._connect([(disp.id, 'exc')], hn.id)
+                n0 = self._n
                 outs += self._seq(h.body, [(hn.id, 'next')], handler_k)
+                self.in_handler.update(range(n0, self._n))
                 if h.type is None or (isinstance(h.type, ast.Name) and h.type.id in ('Exception', 'BaseException')):
                     catch_all = True
                 elif isinstance(h.type, ast.Tuple) and any(isinstance(e, ast.Name) and e.id in ('Exception', 'BaseException') for e in h.type.elts):
@@ -383,6 +386,8 @@ class CFG:
         dsts = set(dsts)
         seen = set()
         work = [s for s in srcs if s not in avoid]
+        if any(s in dsts for s in work):
+            return True
         while work:
             u = work.pop()
             if u in seen:
@@ -397,21 +402,27 @@ class CFG:
                     work.append(v)
         return False
 
-    def find_path(self, srcs: Iterable[int], dsts: Iterable[int], avoid: Iterable[int] = ()) -> Optional[List[int]]:
+    def find_path(self, srcs: Iterable[int], dsts: Iterable[int], avoid: Iterable[int] = (), no_exc_from: Iterable[int] = ()) -> Optional[List[int]]:
+        """Shortest path; `no_exc_from`: exception edges leaving these nodes are ignored (e.g. failures of cleanup code)."""
         avoid = set(avoid)
         dsts = set(dsts)
+        no_exc_from = set(no_exc_from)
         from collections import deque
         q = deque()
         prev = {}
         for s in srcs:
             if s in avoid:
                 continue
+            if s in dsts:
+                return [s]
             q.append(s)
             prev[s] = None
         while q:
             u = q.popleft()
             for v in self.g.successors(u):
                 if v in avoid or v in prev:
+                    continue
+                if u in no_exc_from and self.g[u][v]['labels'] == ['exc'] and not isinstance(self.nodes[u].ast, ast.Raise):
                     continue
                 prev[v] = u
                 if v in dsts:
